@@ -7,6 +7,13 @@ ENGINES = [
 NOTES = "All checks rebuild from /repo's current working tree. Exit 2 = internal error of the machinery (never a verdict)."
 NOT_APPLICABLE = {}
 META = {
+    "C04": {
+        "engine": "bounded exhaustive enumeration + reference interpreter",
+        "design_ref": "DESIGN.md section 3 C04",
+        "technique": "bounded exhaustive enumeration of lambda ASTs x scope histories (type-changing, two groups sharing the compiled tree) against an independent cache-free AST interpreter",
+        "level_text": "Every binary operator over every pair of typed leaves, depth-2 nestings and built-in functions with every argument-type vector is compiled once and evaluated over every scope history up to the bound (boundary values per type, type changes between points, two groups via CopyReset) through three entry modes; value, type and error-ness are compared with an independent interpreter; any panic is a violation.",
+        "level_note": "Trusted: the lambda parser (C13 covers it), Go's math/strings/regexp used by both sides. Outcomes the language does not define (out-of-range float conversions, undocumented signatures) are skipped and counted in the evidence.",
+    },
     "C01": {
         "engine": "bubble + explicit-state search",
         "design_ref": "DESIGN.md section 3 C01",
